@@ -1321,6 +1321,14 @@ def eval_const_expr(ctx, f, s):
         raise Unsupported('static alloc? ' + s)
     if s in prog.consts:
         return exec_func(ctx, prog.consts[s], [])
+    m = re.fullmatch(r'(?:core::num::|std::)?([iu](?:8|16|32|64|128|size))::(MIN|MAX|BITS)', s)
+    if m:
+        bits, signed = ty_bits(m.group(1))
+        if m.group(2) == 'BITS':
+            return bits
+        if signed:
+            return -(1 << (bits - 1)) if m.group(2) == 'MIN' else (1 << (bits - 1)) - 1
+        return 0 if m.group(2) == 'MIN' else (1 << bits) - 1
     st = strip_generics(s)
     if st in prog.consts:
         return exec_func(ctx, prog.consts[st], [])
